@@ -183,3 +183,27 @@ def impose_unweighted(h):
             ' and '.join(('w2[%d] == 0' if i in drop else 'w2[%d] > 0') % i for i in range(n)), **e)
     h.check('total-weight-kept', '%s == %s' % (_sum('w2', n), _sum('w', n)), **e)
     h.check('weighted-mean-kept', '%s == %s' % (_mean('y', n, 'w2'), _mean('x', n, 'w')), **e)
+
+
+@contract('C18/expectation', ['C18', 'C19'], F + '::expectation', samples=200)
+def expectation(h):
+    """E[f] = sum(w_i f(x_i)) / sum(w_i) for ANY real weights with a non-zero total (signed weights are legal: point
+    masses accept them), f an arbitrary function; unweighted: the plain average"""
+    n = h.choice('n', [1, 2, 3])
+    weighted = h.choice('weighted', [False, True])
+    f = h.fn('F', ret='real')
+    x = h.vec('x', n)
+    if weighted:
+        w = h.vec('w', n)
+        h.assume(' + '.join('w[%d]' % i for i in range(n)) + ' != 0', w=w)
+        r = h.call(h.get(F + '::expectation'), f, x, w)
+        fx = [h.call(f, h.ev('x[%d]' % i, x=x)) for i in range(n)]
+        env = {'f%d' % i: v for i, v in enumerate(fx)}
+        h.check('textbook-weighted-expectation',
+                'r * (%s) == %s' % (' + '.join('w[%d]' % i for i in range(n)), ' + '.join('w[%d] * f%d' % (i, i) for i in range(n))),
+                r=r, w=w, **env)
+    else:
+        r = h.call(h.get(F + '::expectation'), f, x)
+        fx = [h.call(f, h.ev('x[%d]' % i, x=x)) for i in range(n)]
+        env = {'f%d' % i: v for i, v in enumerate(fx)}
+        h.check('textbook-expectation', 'r * %d == %s' % (n, ' + '.join('f%d' % i for i in range(n))), r=r, **env)
